@@ -15,11 +15,13 @@ pub struct ArrDest<const N: usize> {
     pub high_water: usize,
     pub writes: usize,
     pub seeks: usize,
+    /// copy with one memcpy (needs a concrete cursor)
+    pub memcpy: bool,
 }
 
 impl<const N: usize> ArrDest<N> {
     pub fn new(data: [u8; N], pos: u64) -> Self {
-        Self { data, pos, ops: 0, crash_at: usize::MAX, fail_at: usize::MAX, high_water: 0, writes: 0, seeks: 0 }
+        Self { data, pos, ops: 0, crash_at: usize::MAX, fail_at: usize::MAX, high_water: 0, writes: 0, seeks: 0, memcpy: false }
     }
 }
 
@@ -37,9 +39,18 @@ impl<const N: usize> Write for ArrDest<N> {
         let start = self.pos as usize;
         // capacity is part of the harness bounds, not of the property
         kani::assume(start + buf.len() <= N);
-        // one memcpy instead of a byte loop (the loop costs ~1 s of symbolic execution per byte
-        // on a 640-byte destination)
-        self.data[start..start + buf.len()].copy_from_slice(buf);
+        if self.memcpy {
+            // one memcpy instead of a byte loop (the loop costs ~1 s of symbolic execution per byte
+            // on a 640-byte destination); only when the cursor is concrete - a memcpy at a
+            // symbolic offset costs gigabytes
+            self.data[start..start + buf.len()].copy_from_slice(buf);
+        } else {
+            let mut i = 0;
+            while i < buf.len() {
+                self.data[start + i] = buf[i];
+                i += 1;
+            }
+        }
         self.pos += buf.len() as u64;
         if start + buf.len() > self.high_water {
             self.high_water = start + buf.len();
